@@ -370,11 +370,56 @@ def immutable(r, F):
     r.ok("foyer_*", "no-write-through-Record.data", "%d assignments inspected, none writes or mutably borrows Record.data" % n)
 
 
+def piece_ownership(r, F):
+    """a Piece is a type-erased strong reference to a Record (raw Arc pointer): one strong count per Piece — taken over from the Arc in `new`, added in `clone`,
+    given back exactly once by `drop` (through the erased drop fn) or by `into_record` (which disarms the drop fn); key / value / properties point into the same record"""
+    P = "foyer_memory::pipe::Piece"
+    new = F.method(P, "new")
+    ir = new.calls_to(r"Arc::<T>::into_raw$")
+    okn = len(ir) == 1 and new.must_pass(0, [ir[0].idx]) and 1 in backslice(new, ir[0].term.args[0], "prov").args
+    res = [st for b in new.blocks if not b.cleanup for st in b.stmts if st.k == "assign" and st.rv.k == "agg" and (st.rv.j.get("adt") or "").endswith("pipe::Piece")]
+    if okn and len(res) == 1:
+        fl = dict(res[0].rv.agg_fields())
+        from_raw = lambda o: any(bb == ir[0].idx for bb, _ in backslice(new, o, "dep").calls)
+        acc = {"key": r"Record::<E>::key$", "value": r"Record::<E>::value$", "properties": r"Record::<E>::properties$", "hash": r"Record::<E>::hash$"}
+        okn = from_raw(fl["record"]) and all(backslice(new, fl[k], "dep").has_call(pat) and from_raw(fl[k]) for k, pat in acc.items())
+        cl = [g for g in F.descendants(new) if g.calls_to(r"Arc::<T>::from_raw$")]
+        okn = okn and len(cl) == 1 and cl[0].must_pass(0, [b.idx for b in cl[0].calls_to(r"Arc::<T>::from_raw$")])
+    else:
+        okn = False
+    r.require(okn, new, "Piece::new takes over the Arc", "record := Arc::into_raw(arg); key/value/hash/properties read through it; drop_fn := |p| drop(Arc::from_raw(p))",
+              "Piece::new does not take the strong count over with Arc::into_raw, or its pointers / erased drop function do not belong to that record", ln=new.lo)
+    dr = F.method(P, "drop", "Drop")
+    ind = [b for b in dr.blocks if not b.cleanup and b.term.k == "call" and b.term.callee is None]
+    okd = len(ind) == 1 and dr.must_pass(0, [ind[0].idx]) and backslice(dr, ind[0].term.args[0], "prov").has_field("record", P)
+    r.require(okd, dr, "Piece::drop gives its count back", "(self.drop_fn)(self.record) on every path", "Piece::drop does not call the erased drop function with its record pointer on every path: every Piece leaks a strong "
+              "count (the record, its key and value are never freed) or frees someone else's", ln=dr.lo)
+    cl = F.method(P, "clone", "Clone")
+    inc = cl.calls_to(r"Arc::<T>::increment_strong_count$")
+    okc = len(inc) == 1 and cl.must_pass(0, [inc[0].idx]) and backslice(cl, inc[0].term.args[0], "prov").has_field("record", P)
+    res = [st for b in cl.blocks if not b.cleanup for st in b.stmts if st.k == "assign" and st.rv.k == "agg" and (st.rv.j.get("adt") or "").endswith("pipe::Piece")]
+    if okc and len(res) == 1:
+        for k, o in res[0].rv.agg_fields():
+            okc = okc and backslice(cl, o, "prov").has_field(k, P)
+    else:
+        okc = False
+    r.require(okc, cl, "Piece::clone adds one count and copies every field", "increment_strong_count(self.record); each field from the same field of self",
+              "Piece::clone does not add a strong count for the new Piece (its drop then frees the record while the original still points at it) or mixes up the copied pointers", ln=cl.lo)
+    ir_ = F.method(P, "into_record")
+    fr = ir_.calls_to(r"Arc::<T>::from_raw$")
+    dis = [st for b in ir_.blocks if not b.cleanup for st in b.stmts if st.k == "assign" and st.place.fields()[-1:] == ["drop_fn"]]
+    oki = len(fr) == 1 and backslice(ir_, fr[0].term.args[0], "prov").has_field("record", P) and len(dis) == 1 and ir_.must_pass(0, [b.idx for b in ir_.blocks if dis[0] in b.stmts]) and \
+        all(not g.calls() for g in F.descendants(ir_))
+    r.require(oki, ir_, "Piece::into_record hands the count to the Arc and disarms drop", "drop_fn := no-op before Arc::from_raw(self.record)",
+              "Piece::into_record rebuilds the Arc without disarming the Piece's drop function (double free) or from another pointer", ln=ir_.lo)
+
+
 def run(chk, F):
     chk.run_rule("C18.refs-paired", "every reference-count increment ends in a handle whose drop decrements it; release only at zero", 14, refs_paired, F)
     chk.run_rule("C18.acquire-on-lookup", "every lookup hit runs the acquire operator unconditionally; the last drop runs the matching release operator on every non-phantom path", 6, acquire_on_lookup, F)
     chk.run_rule("C18.lru-pin", "LRU: pop never reads the pin list; acquire pins, release unpins to the tail, clear drains it", 5, lru_pin, F)
     chk.run_rule("C18.outdated", "is_outdated == !in-indexer flag, and only the Sentry index wrapper writes the flag (true on insert, false on leave)", 6, outdated, F)
+    chk.run_rule("C18.piece-ownership", "one strong count per Piece: taken over in new, added in clone, returned once by drop or into_record", 4, piece_ownership, F)
     chk.run_rule("C18.immutable", "no code path assigns to or mutably borrows Record.data; accessors return shared borrows", 4, immutable, F)
 
 
